@@ -43,7 +43,14 @@ def origins(body, op, depth=0, seen=None, fieldpath=()):
         place = op_place(op)
         if place is None:
             return {("unknown", "operand")}
-    return place_origins(body, place, depth, seen, fieldpath)
+    res = place_origins(body, place, depth, seen, fieldpath)
+    if depth == 0 and len(res) > 1:
+        # a value that is read after a `?` cannot be the residual of that `?`: `FromResidual::from_residual(..)` only ever
+        # flows to an early return. (It shows up next to the real origin when an Option-returning helper was inlined.)
+        real = {x for x in res if not (x[0] == "call" and str(x[1]).endswith("::from_residual"))}
+        if real:
+            res = real
+    return res
 
 
 def _fields_of(proj):
